@@ -60,6 +60,12 @@ impl Args {
     }
 }
 
+/// the repository under test: `--repo`, else $VERIF_REPO, else /repo (an isolated regression run
+/// works on copies of /repo and /verif)
+pub fn default_repo() -> String {
+    std::env::var("VERIF_REPO").unwrap_or_else(|_| "/repo".to_string())
+}
+
 pub fn die(msg: &str) -> ! {
     eprintln!("cooksim: harness error: {msg}");
     std::process::exit(2);
@@ -139,6 +145,9 @@ struct WorkerOut {
     clock_seam: bool,
     clock_reads: u64,
     clock_sleeps: u64,
+    sim_time_ns: u64,
+    /// reference phases that included the pass on another OS thread
+    thread_passes: u64,
     violations: Vec<serde_json::Value>,
     samples: Vec<serde_json::Value>,
     wall_s: f64,
@@ -200,7 +209,7 @@ fn c18_worker(a: &Args) -> i32 {
     let max_viol = a.u64("max-violations", 3);
     let start = a.u64("start", 0);
     let pool_arc = std::sync::Arc::new({
-        let mut p = Pool::load(&a.str("repo", "/repo"));
+        let mut p = Pool::load(&a.str("repo", &default_repo()));
         p.xl_den = a.u64("xl-den", 1500) as u32;
         p
     });
@@ -301,6 +310,7 @@ fn c18_worker(a: &Args) -> i32 {
             out.executions += 1;
             out.clock_reads += st.clock_reads;
             out.clock_sleeps += st.clock_sleeps;
+            out.sim_time_ns += st.sim_time_ns;
             out.steps += st.steps;
             out.switches += st.switches;
             out.ops += st.ops;
@@ -357,6 +367,7 @@ fn c18_worker(a: &Args) -> i32 {
         i += workers;
     }
     out.maps_created = cooklang::verif_seam::created() - maps0;
+    out.thread_passes = c18::THREAD_PASSES.load(std::sync::atomic::Ordering::Relaxed);
     out.wall_s = t0.elapsed().as_secs_f64();
     // continue in a fresh process after a tainted run (only if something is left to do)
     let out_path = match tainted_at {
@@ -418,7 +429,7 @@ fn depth_worker(a: &Args) -> i32 {
     let max_depth = a.u64("max-depth", 300) as u32;
     let out_path = a.str("out", "");
     let replay_dir = a.str("replay-dir", "/verif/replays");
-    let pool = Pool::load(&a.str("repo", "/repo"));
+    let pool = Pool::load(&a.str("repo", &default_repo()));
     let small: Vec<&String> = pool.inputs.iter().filter(|s| s.len() < 500).collect();
     let medium: Vec<&String> = pool.inputs.iter().filter(|s| s.len() < 4000).collect();
     let mut violations: Vec<serde_json::Value> = Vec::new();
@@ -589,7 +600,7 @@ pub fn replay_file(rf: &ReplayFile, a: &Args) -> (Vec<Violation>, Vec<String>) {
     // a file without a scenario (hang reports) names the run by its provenance only
     if rf.scenario.is_none() {
         let p = rf.provenance.clone().unwrap_or_else(|| die("C18 replay without scenario or provenance"));
-        let pool = std::sync::Arc::new(Pool::load(&a.str("repo", "/repo")));
+        let pool = std::sync::Arc::new(Pool::load(&a.str("repo", &default_repo())));
         let rs = mix3(p.verif_seed, p.salt, p.run_index);
         let s = gen_in_sim(rs, &pool);
         let rp = c18::reference_phase(&s);
@@ -604,7 +615,7 @@ pub fn replay_file(rf: &ReplayFile, a: &Args) -> (Vec<Violation>, Vec<String>) {
     // leaked-state violations need the runs the worker had executed before
     if !rf.prefix_run_indexes.is_empty() && !a.flag("no-prefix") {
         if let Some(p) = &rf.provenance {
-            let pool = std::sync::Arc::new(Pool::load(&a.str("repo", "/repo")));
+            let pool = std::sync::Arc::new(Pool::load(&a.str("repo", &default_repo())));
             log.push(format!("replaying {} earlier runs of the worker first", rf.prefix_run_indexes.len()));
             for &i in &rf.prefix_run_indexes {
                 let rs = mix3(p.verif_seed, p.salt, i);
@@ -650,7 +661,7 @@ fn main() {
     let cmd = a.pos.first().cloned().unwrap_or_default();
     init_process();
     // tokens taken from the library's own source feed the generators
-    dict::load(&a.str("repo", "/repo"));
+    dict::load(&a.str("repo", &default_repo()));
     // a panic that escapes the guarded sections is a harness error: say so (the silent
     // hook swallowed the message) and exit 2
     let code = std::panic::catch_unwind(std::panic::AssertUnwindSafe(|| dispatch(&cmd, &a))).unwrap_or_else(|_| {
@@ -682,7 +693,7 @@ fn dispatch(cmd: &str, a: &Args) -> i32 {
         }
         // diagnostic: does the very long input of the pool produce an output at all?
         "probe-xl" => {
-            let pool = Pool::load(&a.str("repo", "/repo"));
+            let pool = Pool::load(&a.str("repo", &default_repo()));
             let p = c18::build_parser(&scenario::ParserCfg { ext_bits: scenario::EXT_ALL, converter: "bundled".into() });
             let r = p.parse(&pool.xl);
             println!("xl bytes={} has_output={} errors={} warnings={}", pool.xl.len(), r.has_output(), r.report().errors().count(), r.report().warnings().count());
@@ -739,7 +750,7 @@ fn dispatch(cmd: &str, a: &Args) -> i32 {
         }
         // print the scenario of a run index (embedded into replay files that name a run only)
         "scenario" => {
-            let pool = Pool::load(&a.str("repo", "/repo"));
+            let pool = Pool::load(&a.str("repo", &default_repo()));
             let rs = mix3(a.u64("seed", 1), a.u64("salt", 1), a.u64("run-index", 0));
             println!("{}", serde_json::to_string(&gen_in_sim(rs, &std::sync::Arc::new(pool))).unwrap());
             0
@@ -788,7 +799,7 @@ fn dispatch(cmd: &str, a: &Args) -> i32 {
         }
         "realthreads" => {
             // regenerate the scenario of a run index and execute it on real OS threads
-            let pool = Pool::load(&a.str("repo", "/repo"));
+            let pool = Pool::load(&a.str("repo", &default_repo()));
             let rs = mix3(a.u64("seed", 1), a.u64("salt", 1), a.u64("run-index", 0));
             let sc = gen_in_sim(rs, &std::sync::Arc::new(pool));
             let v = c18::run_real_threads(&sc);
